@@ -942,9 +942,9 @@ type cliHistResult struct {
 	hist      cliHist // the history that was executed (one of the alternatives)
 	effective bool    // steps 0 and 1 differ uncached (only meaningful with alternatives)
 	line      string
-	answer  string
-	nocache []cliResult
-	again   []cliResult // determinism spot check (nil when not executed)
+	answer    string
+	nocache   []cliResult
+	again     []cliResult // determinism spot check (nil when not executed)
 }
 
 func (h cliHist) execute(spot bool) cliHistResult {
